@@ -93,6 +93,29 @@ Theorem C15_streamdict_reencode_roundtrip : forall sts raw0 old new,
 Proof. exact streamdict_reencode_roundtrip. Qed.
 Print Assumptions C15_streamdict_reencode_roundtrip.
 
+(* Pipelines as lists of (filter name, decode parameters), names possibly repeated with different
+   parameters: StreamDict.Encode / Decode build every stage from that stage's OWN parameters, and then
+   encode-decode is the identity for every list of accepted stages. *)
+Theorem C15_spec_pipeline_roundtrip : forall c specs x,
+  codecs_ok c -> (forall f, In f specs -> spec_accepted f) -> bytes x ->
+  exists raw, spec_encode c specs x = Some raw /\ spec_decode c specs raw (-1) (-1) = DOk x.
+Proof. exact spec_pipeline_roundtrip. Qed.
+Print Assumptions C15_spec_pipeline_roundtrip.
+
+Theorem C15_spec_encode_stagewise : forall c f rest x,
+  spec_encode c (f :: rest) x =
+  match spec_encode c rest x with Some y => s_enc (spec_stage c f) y | None => None end.
+Proof. exact spec_encode_cons. Qed.
+Print Assumptions C15_spec_encode_stagewise.
+
+(* per-stage parameters matter: an encoder constructing one filter per NAME breaks the round trip *)
+Theorem C15_name_cached_encoder_refuted : exists c specs x raw,
+  codecs_ok c /\ (forall f, In f specs -> spec_accepted f) /\ bytes x /\
+  spec_encode_cached c specs x = Some raw /\ spec_decode c specs raw (-1) (-1) <> DOk x /\
+  (exists raw', spec_encode c specs x = Some raw' /\ spec_decode c specs raw' (-1) (-1) = DOk x).
+Proof. exact name_cached_encoder_refuted. Qed.
+Print Assumptions C15_name_cached_encoder_refuted.
+
 (* non-vacuity: concrete encodings, a 3-stage pipeline; the stage hypotheses are inhabited *)
 Example C15_nonvacuous :
   rl_encode [7;7;7;1;2;3;3]%N = Some [254;7;1;1;2;255;3;128]%N /\
